@@ -16,4 +16,4 @@ CONSTANTS
  Cap = 0
 INIT Init
 NEXT Next
-INVARIANTS TypeOK InvC04 InvFb InvC03 InvC14 InvC14T InvFailTag
+INVARIANTS TypeOK InvC04 InvFb InvFbListed InvC03 InvC14 InvC14T InvFailTag
